@@ -7,7 +7,7 @@ recognised by (record, field) steps, objects by the value they were defined from
 import json
 
 from ..core import (AnalysisBroken, Inliner, canon, strip, walk, last_member, lvalue_steps, names_of,
-                    norm_cond, forward, subst, simplify)
+                    norm_cond, forward, subst, simplify, must_pass)
 from ..analyses import is_call, callback_kind
 from .. import roles
 from .. import interp
@@ -31,8 +31,83 @@ def inline_root(prog, root, stop=(), **kw):
     key = (root.q, tuple(sorted(stop)), tuple(sorted(kw.items())))
     if key not in cache:
         st = set(stop)
-        cache[key] = Inliner(prog, stop=lambda f: f.name in st or f.q in st, **kw).inline(root)
+        cache[key] = addr_propagate(resolve_joined(prog, Inliner(prog, stop=lambda f: f.name in st or f.q in st, **kw).inline(root)))
     return cache[key]
+
+
+def root_is_comparator(prog, g):
+    """g is being inlined on behalf of comparators() itself (no recursion into it)"""
+    return bool(prog.__dict__.get('_c04_comp_busy'))
+
+
+def resolve_joined(prog, g):
+    """A short-circuit expression whose value is kept (`x = a() && b();`, `return a() || b();`) leaves a join block whose
+    condition still spells the helper calls although their bodies were inlined before it.  Such a call is the result of
+    the one inlined instance entered at that source location: spell it `$retN`.  (When the operand was skipped by the
+    short circuit its value does not matter to the joined condition.)  Calls of pure time comparators stay: they are
+    evaluated from their arguments through the comparator's table wherever they stand."""
+    keep = set() if root_is_comparator(prog, g) else {f.name for f in comparators(prog) if f.params[0].get('record') == 'timespec'}
+    insts = {}
+    for e in g.events():
+        if e['ev'] == 'enter' and e.get('loc') and e.get('inst') is not None:
+            insts.setdefault(e['loc'], set()).add(e['inst'])
+
+    def r(n):
+        if n.get('k') == 'call' and n.get('callee') and n['callee'] not in keep and len(insts.get(n.get('loc'), ())) == 1:
+            return {'k': 'load', 'e': {'k': 'var', 'name': '$ret%d' % next(iter(insts[n['loc']])), 'vk': 'local', 'type': n.get('type', 'int')}}
+        return None
+    for blk in g.blocks.values():
+        c = blk.term.get('cond') if blk.term else None
+        if c is not None and any(x.get('k') == 'call' and x.get('callee') and x.get('loc') in insts for x in walk(c)):
+            blk.term = dict(blk.term, cond=subst(c, r))
+        for e in blk.events:
+            for k in ('rhs', 'value', 'init'):
+                if isinstance(e.get(k), dict) and any(x.get('k') == 'call' and x.get('callee') and x.get('loc') in insts for x in walk(e[k])):
+                    if not (strip(e[k]).get('k') == 'call'):          # the call statement / plain `x = f()` of the instance itself stays
+                        e[k] = subst(e[k], r)
+    return g
+
+
+_EXPR_KEYS = ('lhs', 'rhs', 'value', 'init', 'args', 'fnexpr')
+
+
+def shadow(prog, f):
+    """f itself, or -- when f keeps addresses in locals -- a private copy of f (nothing inlined) normalised by
+    addr_propagate: what site predicates are evaluated on to find the functions that own a site"""
+    cache = prog.__dict__.setdefault('_c04_shadow', {})
+    if f.q not in cache:
+        g = f
+        if f.blocks and any(e['ev'] == 'store' and strip(e['lhs']).get('k') == 'var' and isinstance(strip(e.get('rhs')), dict)
+                            and strip(e.get('rhs')).get('k') == 'addr' for e in f.events()):
+            try:
+                g = addr_propagate(Inliner(prog, stop=lambda f_: True).inline(f))
+            except AnalysisBroken:
+                g = f
+        cache[f.q] = g
+    return cache[f.q]
+
+
+def addr_propagate(g):
+    """Normalisation of an inlined context (it is private to these rules): reads of a local that holds a known address
+    on every path (`now = &st->time`, `int *valid = &st->flag`, an out-parameter that received `&local`) are replaced by
+    that address, so `*valid = 1`, `now->tv_sec`, `iv_time_get(now)` read like the code without the cached address.
+    The defining stores stay; nothing else changes."""
+    cps = ptr_copies(g)
+    for bid, blk in g.blocks.items():
+        for i, e in enumerate(blk.events):
+            known = {n: v for n, v in cps.get((bid, i), {}).items() if isinstance(strip(v), dict) and strip(v).get('k') == 'addr'}
+            if not known:
+                continue
+            for k in _EXPR_KEYS:
+                if k in e and isinstance(e[k], (dict, list)):
+                    if k == 'lhs' and strip(e[k]).get('k') == 'var':
+                        continue
+                    e[k] = _through(e[k], known)
+        if blk.term and blk.term.get('cond') is not None:
+            known = {n: v for n, v in cps.get((bid, len(blk.events)), {}).items() if isinstance(strip(v), dict) and strip(v).get('k') == 'addr'}
+            if known:
+                blk.term = dict(blk.term, cond=_through(blk.term['cond'], known))
+    return g
 
 
 def contexts(prog, site_pred, stop=(), files=None, **kw):
@@ -41,7 +116,8 @@ def contexts(prog, site_pred, stop=(), files=None, **kw):
     helpers inlined (inlining stops at the other roots of the set and at the functions named in `stop`).  A site of
     the source is therefore evaluated in every innermost calling context that reaches it, whatever static helpers
     the code between the root and the site is cut into."""
-    owners = roles.functions_with(prog, site_pred, files)
+    owners = [f for f in sorted(prog.all_funcs(), key=lambda f: f.q)
+              if (files is None or f.file.endswith(tuple(files))) and any(site_pred(e) for e in shadow(prog, f).events())]
     if not owners:
         return []
     ownq = {o.q for o in owners}
@@ -171,16 +247,28 @@ def enter_arg(prog, g, e, recs=TIMER_RECS):
 # available pointer copies:  p = &path
 # --------------------------------------------------------------------------
 
+def _simp(x):
+    """core.simplify, and additionally *(&X) => X where the address is wrapped in loads / casts (as left behind when the
+    inliner substitutes `&local` for an out-parameter)"""
+    def r(n):
+        if n.get('k') == 'deref' and isinstance(n.get('e'), dict):
+            b = strip(n['e'])
+            if isinstance(b, dict) and b.get('k') == 'addr':
+                return _simp(b['e'])
+        return None
+    return simplify(subst(x, r))
+
+
 def _through(x, ptrs):
     """rewrite reads of locals that hold a known address by that address: (&Z)->f becomes Z.f"""
     if not ptrs:
-        return x
+        return _simp(x)
 
     def r(n):
         if n.get('k') == 'load' and isinstance(n.get('e'), dict) and n['e'].get('k') == 'var' and n['e']['name'] in ptrs:
             return ptrs[n['e']['name']]
         return None
-    return simplify(subst(x, r))
+    return _simp(subst(x, r))
 
 
 def _boolish(r):
@@ -198,6 +286,15 @@ def ptr_copies(g):
     def vars_in(x):
         return frozenset(y['name'] for y in walk(x) if y.get('k') == 'var')
 
+    def unprop(x):
+        """an address that was computed from a local must keep depending on that local, not on the memory the local was
+        read from (copy propagation spelled `t` as `*heap_top`; the address `&t->node` does not change when *heap_top does)"""
+        def r(n):
+            if '_was' in n and isinstance(n['_was'], str):
+                return {'k': 'load', 'e': {'k': 'var', 'name': n['_was'], 'vk': 'local', 'type': n.get('type', '')}}
+            return None
+        return subst(x, r)
+
     def tr(e, S):
         if e['ev'] == 'store':
             l = strip(e['lhs'])
@@ -206,6 +303,8 @@ def ptr_copies(g):
                 S0 = S
                 S = frozenset(x for x in S if x[0] != nm and nm not in x[2])
                 r = strip(e.get('rhs')) if e.get('op') == '=' and 'rhs' in e else None
+                if isinstance(r, dict) and r.get('k') == 'addr':
+                    r = unprop(r)
                 if isinstance(r, dict) and r.get('k') == 'addr' and nm not in vars_in(r):
                     S = S | {(nm, json.dumps(r, sort_keys=True), vars_in(r))}
                 elif isinstance(r, dict) and r.get('k') == 'var' and r['name'] != nm:
@@ -342,37 +441,103 @@ def pair_order(l, r, copies, klass, o):
 
 
 
+def root_var(z):
+    """name of the variable an lvalue / pointer expression is reached from (through members, dereferences, loads), else None"""
+    z = strip(z)
+    while isinstance(z, dict):
+        k = z.get('k')
+        if k == 'var':
+            return z['name']
+        if k == 'member':
+            z = strip(z['base'])
+        elif k in ('deref', 'addr'):
+            z = strip(z['e'])
+        elif k == 'index':
+            z = strip(z['base'])
+        else:
+            return None
+    return None
+
+
+def order_keys(x, copies):
+    """the spellings under which explore() may look up the operands of comparison x: as written, and written through
+    the addresses that pointer locals are known to hold there"""
+    known = {n: v for n, v in copies.items() if isinstance(strip(v), dict) and strip(v).get('k') == 'addr'}
+    ks = [(canon(x['l']), canon(x['r']))]
+    k2 = (canon(_through(x['l'], known)), canon(_through(x['r'], known)))
+    if k2 not in ks:
+        ks.append(k2)
+    return ks
+
+
 def comparators(prog):
-    """Pure comparison functions of two time values, found by signature (two pointers to struct timespec, integer
-    result, no calls, no stores through pointers) -- not by name."""
+    """Pure comparison functions of two time values, found by signature -- two pointers to struct timespec, or two pointers
+    to timers (whose expiries they compare) --, integer result, and, with their helpers inlined, no remaining calls and
+    no stores through pointers.  Not by name."""
     if getattr(prog, '_c04_comparators', None) is not None:
         return prog._c04_comparators
+    prog.__dict__['_c04_comp_busy'] = True
+    try:
+        return _find_comparators(prog)
+    finally:
+        prog.__dict__['_c04_comp_busy'] = False
+
+
+def _find_comparators(prog):
     out = []
     for f in sorted(prog.all_funcs(), key=lambda f: f.q):
         ps = f.params
-        if len(ps) != 2 or not all(p.get('ptr') and p.get('record') == 'timespec' for p in ps) or f.ret != 'int' or not f.blocks:
+        if len(ps) != 2 or not all(p.get('ptr') for p in ps) or f.ret != 'int' or not f.blocks:
+            continue
+        if not (all(p.get('record') == 'timespec' for p in ps) or all(p.get('record') in TIMER_RECS for p in ps)):
+            continue
+        try:
+            g = inline_root(prog, f) if any(e['ev'] == 'call' for e in f.events()) else f
+        except AnalysisBroken:
             continue
         pure = True
-        for e in f.events():
+        for e in g.events():
             if e['ev'] == 'call':
                 pure = False
-            if e['ev'] == 'store' and strip(e['lhs']).get('k') != 'var':
+            if e['ev'] == 'store' and strip(_simp(e['lhs'])).get('k') != 'var':
                 pure = False
         if pure:
+            f._c04_body = g
             out.append(f)
     prog._c04_comparators = out
     return out
 
 
 def comparator_table(f):
-    """{order of (first argument, second argument): result} over the 9 orders, both arguments non-NULL"""
+    """{order of (first argument, second argument): result} over the 9 orders of (seconds, nanoseconds) of the time value
+    reached from the first parameter relative to the one reached from the second, both arguments non-NULL; the operands
+    of the comparisons are classified by the parameter they are reached from, not by their spelling"""
     if getattr(f, '_c04_table', None) is None:
+        g = getattr(f, '_c04_body', f)
         a, b = f.params[0]['name'], f.params[1]['name']
-        pairs = [('%s->tv_sec' % a, '%s->tv_sec' % b), ('%s->tv_nsec' % a, '%s->tv_nsec' % b)]
+        copies = ptr_copies(g)
+
+        def klass(z):
+            r = root_var(z)
+            return 'A' if r == a else ('B' if r == b else None)
+        cmps = []
+        for bid, blk in g.blocks.items():
+            srcs = [(blk.term['cond'], copies.get((bid, len(blk.events)), {}))] if blk.term and blk.term.get('cond') is not None else []
+            for i, e in enumerate(blk.events):
+                for key in ('rhs', 'value', 'init'):
+                    if key in e:
+                        srcs.append((e[key], copies.get((bid, i), {})))
+            for x0, cp in srcs:
+                for x in walk(x0):
+                    if x.get('k') == 'bin' and x.get('op') in interp.CMP and pair_order(x['l'], x['r'], cp, klass, ('=', '=')) is not None:
+                        cmps.append((x, cp))
         tab = {}
-        for (so, no) in ORDERS:
-            asg = interp.Assignment(orders={pairs[0]: so, pairs[1]: no}, bools={a: True, b: True})
-            tab[(so, no)] = interp.run(f, asg)['ret']
+        for o in ORDERS:
+            orders = {k_: pair_order(x['l'], x['r'], cp, klass, o) for (x, cp) in cmps for k_ in order_keys(x, cp)}
+            vals = set()
+            for path in explore(g, orders=orders, bools={a: True, b: True}, max_paths=200):
+                vals.add(path['ret'] if path['end'] == 'ret' else None)
+            tab[o] = vals.pop() if len(vals) == 1 else None
         f._c04_table = tab
     return f._c04_table
 
@@ -386,7 +551,7 @@ def comparator_call(prog, c, copies, klass, o):
     c = strip(c)
     if not (isinstance(c, dict) and c.get('k') == 'call' and c.get('callee') and len(c.get('args', [])) == 2):
         return None
-    fs = [f for f in comparators(prog) if f.name == c['callee']]
+    fs = [f for f in comparators(prog) if f.name == c['callee'] and f.params[0].get('record') == 'timespec']
     if len(fs) != 1:
         return None
     zs = [deref_target(a, copies) for a in c['args']]
@@ -406,7 +571,156 @@ def comparator_call(prog, c, copies, klass, o):
 # effects on the loop clock / on expiry values
 # --------------------------------------------------------------------------
 
-CLOCK_KEYS = {('iv_state', 'time'), ('iv_state', 'time_valid'), ('iv_timer_', 'expires'), ('iv_timer', 'expires')}
+EXPIRES = {('iv_timer_', 'expires'), ('iv_timer', 'expires')}
+
+# The state the rules talk about, identified by what is done with it rather than by its name (a field may be renamed,
+# moved into a sub-structure, or have its polarity turned round).  Filled in by bind(prog) at every entry point.
+ROLE = {'clock': set(), 'flag': None, 'valid': 1, 'num': None, 'prog': None}
+CLOCK_KEYS = set(EXPIRES)
+
+_INT_T = __import__('re').compile(r'^(?:(?:const|volatile|unsigned|signed|short|long|int|char|_Bool)\s*)+$|^u?int\d+_t$|^s?size_t$')
+
+
+def int_member(x):
+    """x is an integer-typed member lvalue (not a field of a struct timespec)"""
+    x = strip(x)
+    return isinstance(x, dict) and x.get('k') == 'member' and x.get('field') not in TS_FIELDS and bool(_INT_T.match((x.get('type') or '').strip()))
+
+
+def _discover(prog):
+    """clock  = the time values in memory that iv_time_get() is asked to fill (the cached loop time);
+    flag/valid = the integer member and the constant that the code reading the clock into the cache stores next to the
+                 read ("the cache is valid now"; the pair most readers agree on);
+    num    = the integer member that iv_timer_register and iv_timer_unregister both step and that only they (and their
+             helpers) write (the number of registered timers; tie-break: the one iv_get_soonest_timeout tests)."""
+    role = {'clock': set(), 'flag': None, 'valid': 1, 'num': None, 'prog': prog}
+    readers = []
+    for f in prog.all_funcs():
+        if not any(is_call(e, 'iv_time_get') for e in f.events()):
+            continue
+        cps = ptr_copies(f)
+        hit = False
+        for e in f.events():
+            if is_call(e, 'iv_time_get') and e.get('args'):
+                z = deref_target(e['args'][0], cps.get((e['_b'], e['_i']), {}))
+                if z is not None and last_member(z) is not None:
+                    role['clock'].add(last_member(z))
+                    hit = True
+        if hit:
+            readers.append(f)
+
+    def const_stores(f):
+        out = set()
+        cps = None
+        for e in f.events():
+            if e['ev'] == 'store' and e.get('op') == '=' and 'rhs' in e:
+                l = strip(e['lhs'])
+                if isinstance(l, dict) and l.get('k') == 'deref':
+                    cps = ptr_copies(f) if cps is None else cps
+                    t = deref_target(l['e'], cps.get((e['_b'], e['_i']), {}))
+                    l = strip(t) if t is not None else l
+                r = strip(e['rhs'])
+                if int_member(l) and isinstance(r, dict) and r.get('k') == 'int':
+                    out.add((last_member(l), r['v']))
+        return out
+    sets = []
+    for f in readers:
+        c = const_stores(f)
+        if not c:
+            for (g, _) in prog.callers_of(f.name):
+                c |= const_stores(g)
+        sets.append(c)
+    votes = {}
+    for c in sets:
+        for pair in c:
+            votes[pair] = votes.get(pair, 0) + 1
+    best = sorted(votes.items(), key=lambda kv: -kv[1])
+    if best and (len(best) == 1 or best[0][1] > best[1][1]):          # what (nearly) every reader does; a reader that does not is reported by R-C04b
+        (role['flag'], role['valid']) = best[0][0]
+    # number of registered timers
+    try:
+        stepped = []
+        for name in ('iv_timer_register', 'iv_timer_unregister'):
+            g = inline_root(prog, prog.fn(name))
+            stepped.append({last_member(e['lhs']) for e in g.events() if e['ev'] == 'store' and int_member(e['lhs'])})
+        s_ = inline_root(prog, prog.fn('iv_get_soonest_timeout'))
+        tested = set()
+        for blk in s_.blocks.values():
+            if blk.term and blk.term.get('cond') is not None:
+                tested |= {last_member(x) for x in walk(blk.term['cond']) if int_member(x)}
+            for e in blk.events:
+                for k in ('rhs', 'value', 'init'):
+                    if k in e and isinstance(e[k], dict):
+                        tested |= {last_member(x) for x in walk(e[k]) if int_member(x)}
+        # ... and that nothing outside the timer code writes (the count of all registered objects is stepped next to it)
+        owners = set()
+        for name in ('iv_timer_register', 'iv_timer_unregister'):
+            g = inline_root(prog, prog.fn(name))
+            owners |= {prog.fn(name).q} | {e['fn'] for e in g.events() if e.get('fn')}
+        nums = {m for m in stepped[0] & stepped[1] if m is not None and
+                all((wf.q in owners or wf.name in owners) for (wf, _) in prog.writers_of(*m))}
+        if len(nums) > 1:
+            # a registration always raises the count (a level of the tree is added only now and then)
+            g = inline_root(prog, prog.fn('iv_timer_register'))
+            always = set()
+            for m in nums:
+                mp = must_pass(g, lambda e, m=m: e['ev'] == 'store' and last_member(e['lhs']) == m)
+                pts = [(b, i) for b, blk in g.blocks.items() for i, e in enumerate(blk.events) if e['ev'] == 'ret' and not e.get('chain')] + [(g.exit, 0)]
+                if all(mp.get(pt_) is not False for pt_ in pts) and any(mp.get(pt_) for pt_ in pts):
+                    always.add(m)
+            if always:
+                nums = always
+        if len(nums) > 1 and len(nums & tested) == 1:
+            nums &= tested
+        if len(nums) == 1:
+            role['num'] = next(iter(nums))
+    except AnalysisBroken:
+        pass
+    return role
+
+
+def bind(prog):
+    """make the roles of this program current (called at every entry point of the rules)"""
+    if ROLE.get('prog') is prog:
+        return ROLE
+    r = prog.__dict__.get('_c04_roles')
+    if r is None:
+        r = prog.__dict__['_c04_roles'] = _discover(prog)
+    ROLE.update(r)
+    CLOCK_KEYS.clear()
+    CLOCK_KEYS.update(EXPIRES | r['clock'] | ({r['flag']} if r['flag'] else set()))
+    return ROLE
+
+
+def need(what):
+    v = ROLE.get(what)
+    if not v and v != 0:
+        raise AnalysisBroken({'clock': 'no cached loop time found (a time value in memory that iv_time_get() fills)',
+                              'flag': 'the validity flag of the cached loop time is not identified (the integer member that every reader of the clock sets to one constant)',
+                              'num': 'the count of registered timers is not identified (the integer member stepped by iv_timer_register and iv_timer_unregister and written by nothing else)'}[what])
+    return v
+
+
+def is_clock(z):
+    return last_member(z) in ROLE['clock']
+
+
+def is_flag(z):
+    return ROLE['flag'] is not None and last_member(z) == ROLE['flag']
+
+
+def is_num(z):
+    return ROLE['num'] is not None and last_member(z) == ROLE['num']
+
+
+def says_valid(op, rc):
+    """an atom `flag op rc` (rc: constant as text) holds exactly for the value that means "valid" (flag domain 0/1 + that value)"""
+    try:
+        c = int(rc)
+    except (TypeError, ValueError):
+        return False
+    dom = {0, 1, ROLE['valid']}
+    return {x for x in dom if eval('%d %s %d' % (x, op, c))} == {ROLE['valid']}
 
 
 def clock_touchers(prog):
@@ -452,11 +766,12 @@ def is_clock_read(e, copies):
     if not is_call(e, 'iv_time_get') or not e.get('args'):
         return False
     z = deref_target(e['args'][0], copies)
-    return z is not None and last_member(z) == ('iv_state', 'time')
+    return z is not None and is_clock(z)
 
 
 def invalidates(e):
-    return is_store_of(e, 'iv_state', 'time_valid') and e.get('op') == '=' and const_of(e.get('rhs')) == 0
+    """a store that marks the cached loop time invalid: a constant other than the "valid" value goes into the flag"""
+    return e['ev'] == 'store' and is_flag(e['lhs']) and e.get('op') == '=' and const_of(e.get('rhs')) is not None and const_of(e.get('rhs')) != ROLE['valid']
 
 
 def opaque_touch(prog, g, e):
@@ -488,7 +803,7 @@ def clock_valid(prog, g, copies):
     def edge(blk, si, s):
         if blk.term and blk.term.get('cond') is not None and len(blk.succ) == 2 and blk.term.get('cls') not in ('SwitchStmt', 'MethodDispatch'):
             for (op, lc, rc, l, r) in norm_cond(blk.term['cond'], si == 0):
-                if last_member(l) == ('iv_state', 'time_valid') and ((op == '!=' and rc == '0') or (op in ('==', '>=') and rc == '1') or (op == '>' and rc == '0')):
+                if op != 'const' and is_flag(l) and says_valid(op, rc):
                     return True
         return s
     _, ev_in = forward(g, False, tr, lambda a, b: a and b, edge=edge)
@@ -506,7 +821,7 @@ def order_sets(prog, g, copies, klass_at, reset):
     def tr(e, S):
         if reset(e):
             return ALL
-        if e['ev'] == 'store' and (set(lvalue_steps(e['lhs'])) & (CLOCK_KEYS - {('iv_state', 'time_valid')})
+        if e['ev'] == 'store' and (set(lvalue_steps(e['lhs'])) & (CLOCK_KEYS - {ROLE['flag']})
                                    or any(st[0] == 'timespec' for st in lvalue_steps(e['lhs']))):
             return ALL
         if opaque_touch(prog, g, e):
@@ -593,7 +908,13 @@ class Origins:
 
     def _tr(self, e, S):
         if e['ev'] == 'store':
-            l = strip(e['lhs'])
+            l = strip(_simp(e['lhs']))
+            if isinstance(l, dict) and l.get('k') == 'deref':
+                pv = strip(l['e'])
+                if isinstance(pv, dict) and pv.get('k') == 'var':
+                    os_ = [strip(self.tab[o]) for (v, o) in S if v == pv['name']]
+                    if len(os_) == 1 and isinstance(os_[0], dict) and os_[0].get('k') == 'addr' and strip(os_[0]['e']).get('k') == 'var':
+                        l = strip(os_[0]['e'])
             if l.get('k') == 'var' and l.get('vk') in ('local', 'param'):
                 nm = l['name']
                 if e.get('op') == '=' and 'rhs' in e:
@@ -634,13 +955,30 @@ def ts_key(z, field):
     return canon({'k': 'member', 'arrow': False, 'base': z, 'field': field})
 
 
-def explore(g, orders=None, bools=None, ints=None, on_event=None, start=None, max_paths=3000, max_visits=2, goal_blocks=None):
+def _fork_extras(path):
+    """what on_event hooks keep in the path dict (logs, symbolic values) belongs to the path: every alternative of a
+    fork continues with its own copy"""
+    out = {}
+    for k, v in path.items():
+        if k in _PATH_KEYS:
+            continue
+        out[k] = list(v) if isinstance(v, list) else (dict(v) if isinstance(v, dict) else (set(v) if isinstance(v, set) else v))
+    return out
+
+
+_PATH_KEYS = ('end', 'ret', 'trace', 'env', 'mem', 'assumed', 'ptrs', 'eval')
+
+
+def explore(g, orders=None, bools=None, ints=None, on_event=None, start=None, max_paths=3000, max_visits=2, goal_blocks=None, decide=None):
     """All paths of g from its entry under a partial assignment: comparisons of the pairs in `orders`, truth values
     in `bools` and integer values in `ints` (all keyed by canonical expression text computed *from typed operands by
     the caller*) decide branches; integer locals and stores to memory lvalues are tracked concretely (memory keyed by
     the canonical lvalue, spelled through the addresses that pointer locals are known to hold); a branch nothing
     decides is followed both ways (and remembered for the rest of the path).
-    on_event(event, env, asg, path) may raise Stop to end the path there.  Returns dicts(end, ret, trace, env, mem, assumed)."""
+    on_event(event, env, asg, path) may raise Stop to end the path there; whatever it keeps in `path` under its own keys
+    is carried (copied) into both continuations of a fork.  decide(cond) -> True | False | None is asked about a branch
+    condition that the assignment leaves open (scenario restrictions such as "the list the wait filled is empty").
+    Returns dicts(end, ret, trace, env, mem, assumed)."""
     orders = dict(orders or {})
     out = []
     useful = None
@@ -653,15 +991,16 @@ def explore(g, orders=None, bools=None, ints=None, on_event=None, start=None, ma
                 if p_ not in useful:
                     useful.add(p_)
                     work.append(p_)
-    stack = [(g.entry if start is None else start, {}, dict(ints or {}), dict(bools or {}), [], {}, [], {})]
+    stack = [(g.entry if start is None else start, {}, dict(ints or {}), dict(bools or {}), [], {}, [], {}, {})]
     npaths = 0
     while stack:
-        b, env, mem, bl, trace, visits, assumed, ptrs = stack.pop()
+        b, env, mem, bl, trace, visits, assumed, ptrs, extras = stack.pop()
         npaths += 1
         if npaths > max_paths:
             raise AnalysisBroken('%s: more than %d paths under the abstract assignment' % (g.name, max_paths))
         asg = interp.Assignment(orders=orders, bools=bl, ints=mem)
         path = dict(end=None, ret=None, trace=trace, env=env, mem=mem, assumed=assumed, ptrs=ptrs)
+        path.update(extras)
 
         def ev_(x):
             return interp.evaluate(_through(x, path['ptrs']), asg, env)
@@ -689,7 +1028,7 @@ def explore(g, orders=None, bools=None, ints=None, on_event=None, start=None, ma
                             except interp.Undecided:
                                 pass
                     elif ev == 'store':
-                        l = strip(e['lhs'])
+                        l = strip(_through(e['lhs'], ptrs))      # `*out = v` with out = &local is a store to the local
                         isvar = l.get('k') == 'var' and l.get('vk') in ('local', 'param')
                         if isvar:
                             nm = l['name']
@@ -744,6 +1083,22 @@ def explore(g, orders=None, bools=None, ints=None, on_event=None, start=None, ma
                     decided = 0 if ev_(c) else 1
                 except interp.Undecided:
                     decided = None
+                if decided is None and decide is not None:
+                    d_ = decide(_through(c, ptrs))
+                    if d_ is not None:
+                        decided = 0 if d_ else 1
+            elif c is not None and blk.term.get('cls') == 'SwitchStmt' and len(blk.term.get('cases') or []) == len(succ):
+                # `switch (x)` on a value the path determines: the edge of the matching case, else of `default`
+                try:
+                    v_ = ev_(c)
+                    cases = blk.term['cases']
+                    pick = [k_ for k_, cv in enumerate(cases) if cv == v_] or [k_ for k_, cv in enumerate(cases) if cv == 'default']
+                    if pick:
+                        decided = pick[0]
+                except interp.Undecided:
+                    decided = None
+            elif c is None and len(succ) == 2 and None in succ and blk.term is None:
+                decided = 0 if succ[1] is None else 1        # `for (;;)`: the exit edge of an endless loop does not exist
             if decided is not None:
                 b = succ[decided]
                 if b is None:
@@ -765,21 +1120,51 @@ def explore(g, orders=None, bools=None, ints=None, on_event=None, start=None, ma
                             bl2[a[1]] = (a[0] == '!=')
                     else:
                         bl2[canon(strip(cn))] = (si == 0)
-                alts.append((s_, dict(env), dict(mem), bl2, list(trace), dict(visits), assumed + [(canon(c) if c is not None else '?', si)], dict(ptrs)))
+                alts.append((s_, dict(env), dict(mem), bl2, list(trace), dict(visits), assumed + [(canon(c) if c is not None else '?', si)], dict(ptrs),
+                             _fork_extras(path)))
             if not alts:
                 path['end'] = 'cut'
                 break
             first = alts.pop()
             stack.extend(alts)
-            b, env, mem, bl, trace, visits, assumed, ptrs = first
+            b, env, mem, bl, trace, visits, assumed, ptrs, extras = first
             asg = interp.Assignment(orders=orders, bools=bl, ints=mem)
             path = dict(end=None, ret=None, trace=trace, env=env, mem=mem, assumed=assumed, ptrs=ptrs)
+            path.update(extras)
 
             def ev_(x, path=path, asg=asg, env=env):
                 return interp.evaluate(_through(x, path['ptrs']), asg, env)
             path['eval'] = ev_
         out.append(path)
     return out
+
+
+def empty_list_truth(c, is_head):
+    """truth value of a branch condition under the scenario "the list whose head satisfies is_head(lvalue) is empty",
+    when the condition is such a test in any spelling -- iv_list_empty(&L), L.next == &L, &L != L.prev, negations --
+    else None"""
+    c = strip(c)
+    if not isinstance(c, dict):
+        return None
+    k = c.get('k')
+    if k == 'un' and c.get('op') == '!':
+        v = empty_list_truth(c['e'], is_head)
+        return None if v is None else (not v)
+    if k == 'call' and c.get('callee') == 'iv_list_empty' and c.get('args'):
+        a = strip(c['args'][0])
+        if isinstance(a, dict) and a.get('k') == 'addr' and is_head(a['e']):
+            return True
+        return None
+    if k == 'bin' and c.get('op') in ('==', '!='):
+        if const_of(c['r']) == 0 or const_of(c['l']) == 0:
+            v = empty_list_truth(c['l'] if const_of(c['r']) == 0 else c['r'], is_head)
+            return None if v is None else (v if c['op'] == '!=' else not v)
+        for (u, v) in ((c['l'], c['r']), (c['r'], c['l'])):
+            u, v = strip(u), strip(v)
+            if isinstance(u, dict) and u.get('k') == 'member' and not u.get('arrow') and last_member(u) in (('iv_list_head', 'next'), ('iv_list_head', 'prev')) \
+                    and isinstance(v, dict) and v.get('k') == 'addr' and is_head(v['e']) and canon(strip(u['base'])) == canon(strip(v['e'])):
+                return c['op'] == '=='
+    return None
 
 
 # --------------------------------------------------------------------------
@@ -792,6 +1177,18 @@ def return_signs(g, init=None, start_event=None, maxstates=400):
     branch edges refine and prune.  Only locals that flow into a returned value are tracked.  Returns
     [(ret event, 'Z' | 'NZ' | '?')] over all states reaching each return of the root function, starting at function
     entry with `init` ({local: 'Z'|'NZ'}) or just after start_event with nothing known."""
+    cps = getattr(g, '_c04_copies', None)
+    if cps is None:
+        cps = g._c04_copies = ptr_copies(g)
+
+    def lhs_of(e):
+        """the stored-to lvalue; `*out = v` with out = &local (an out-parameter of an inlined helper) is a store to the local"""
+        l = strip(_simp(e['lhs']))
+        if isinstance(l, dict) and l.get('k') == 'deref':
+            t = deref_target(l['e'], cps.get((e['_b'], e['_i']), {}))
+            if t is not None:
+                return strip(t)
+        return l
     rel, changed = set(), True
     for e in g.events():
         if e['ev'] == 'ret' and not e.get('chain') and 'value' in e:
@@ -799,7 +1196,7 @@ def return_signs(g, init=None, start_event=None, maxstates=400):
     while changed:
         changed = False
         for e in g.events():
-            if e['ev'] == 'store' and strip(e['lhs']).get('k') == 'var' and strip(e['lhs'])['name'] in rel and 'rhs' in e:
+            if e['ev'] == 'store' and lhs_of(e).get('k') == 'var' and lhs_of(e)['name'] in rel and 'rhs' in e:
                 for y in walk(e['rhs']):
                     if y.get('k') == 'var' and y.get('vk') != 'func' and y['name'] not in rel:
                         rel.add(y['name'])
@@ -856,7 +1253,7 @@ def return_signs(g, init=None, start_event=None, maxstates=400):
         for envk in S:
             env = dict(envk)
             if e['ev'] == 'store':
-                l = strip(e['lhs'])
+                l = lhs_of(e)
                 if l.get('k') == 'var' and l['name'] in rel:
                     nm, op = l['name'], e.get('op')
                     v = None
